@@ -278,4 +278,23 @@ def hypothesesCheck : Bool :=
 
 example : hypothesesCheck = true := by decide +kernel
 
+/-- `reset_address()` while a request is in flight: to ANOTHER address the history stays untainted — the
+reply of the old address is ignored and the first request to the new address carries FCB First, as
+`first_is_first` (whose hypotheses `reachable` provides) says; to the very address the reply is
+outstanding from, the history is tainted (the reply would be delivered to the fresh incarnation). -/
+def resetCheck : Bool :=
+  (match grun Ex.fp (G.init Ex.slots false)
+      [.tx 1000 false, .tx 2000 false, .resetAddr 1 9, .reply 7 (Ex.diagReply 0x02 0x05), .tx 3000 false] with
+   | .ok g => !g.tainted && (g.sg 1).count == 1 &&
+       (match g.o with | .sent 1 hd _ => hd.da == 9 && fcbOf hd == .first | _ => false)
+   | _ => false) &&
+  (match grun Ex.fp (G.init Ex.slots false) [.tx 1000 false, .tx 2000 false, .resetAddr 1 7] with
+   | .ok g => g.tainted
+   | _ => false) &&
+  (match grun Ex.fp (G.init Ex.slots false) [.tx 1000 false, .tx 2000 false, .timeout 7, .resetAddr 1 7] with
+   | .ok g => !g.tainted
+   | _ => false)
+
+example : resetCheck = true := by decide +kernel
+
 end PV.C08
